@@ -221,6 +221,8 @@ func indexIngest(repo Repo, index *types.Index, conf config.Config, locked bool)
 				index.AddDesc(newDesc)
 				// the fallback tag has been converted, only the referrers response entry remains
 				index.RmDesc(desc)
+				// a response generated below for the same subject is merged with this one
+				referrerResponse[refSubj.String()] = newDesc
 				mod = true
 			}
 			// if the response cannot be quickly converted, save for later
